@@ -160,6 +160,8 @@ def check_files(case):
         f = os.path.join(d, 'x.csv')
         w = drive.collect(rx.from_(rows).pipe(csv.dump_to_file(f, header=True, separator=case['sep'], escapechar=case['esc'], encoding='utf-8')))
         H.require_clean(w, 'dump_to_file', **ctx)
+        if not os.path.exists(f):
+            raise Violation('csv.dump_to_file completed without creating the file', **ctx)
         size = os.path.getsize(f)
         parser = csv.create_line_parser(dtype=dtype, separator=case['sep'], escapechar=case['esc'])
         r = drive.collect(csv.load_from_file(f, parser, encoding='utf-8'))
